@@ -19,6 +19,8 @@
 import ast
 
 from sa import core
+from sa import pat
+from sa import tpl
 from sa import rules_df
 from sa import setalg
 from sa.formula import atom, implies, equivalent, TRUE
@@ -30,23 +32,9 @@ ACT = 'malt/pyct/static_analysis/activity.py'
 CFG = 'malt/pyct/cfg.py'
 
 
-def atoms(e):
-  t = core.norm(e)
-  return {
-      'node_scope.read': 'READ', 'node_scope.modified': 'MODIFIED',
-      'node_scope.deleted': 'DELETED', 'node_scope.bound': 'BOUND',
-      'node_scope.annotations': 'ANNOTATIONS', 'node_scope.globals': 'GLOBALS',
-      'node_scope.nonlocals': 'NONLOCALS', 'node_scope.params': 'PARAMS',
-      'fn_scope.read': 'FN.read', 'fn_scope.bound': 'FN.bound',
-      'fn_scope.nonlocals': 'FN.nonlocals', 'fn_scope.globals': 'FN.globals',
-      'fn_scope.modified': 'FN.modified',
-      'self.in_[n]': 'NB_IN', 'self.out[n]': 'NB_OUT',
-  }.get(t)
-
-
 def eval_liveness(model):
   vn = model.func(LV, 'Analyzer.visit_node')
-  ev, rets = rules_df.eval_visit_node(model, vn, atoms)
+  ev, rets = rules_df.eval_visit_node(model, vn, rules_df.df_atoms(vn))
   pc, v, env = rules_df.final_env(rets)
   return vn, ev, env
 
@@ -160,9 +148,11 @@ def check(model, rep, tier):
                 'a free variable of a reaching local function must be live '
                 'before the statement regardless of what the statement kills',
                 {'counterexample': cex}, line=vn.node.lineno, witness=wit)
-    src = core.norm(vn.node)
-    ok = 'anno.getanno(node.ast_node, anno.Static.DEFINED_FNS_IN)' in src and \
-        'anno.getanno(fn_ast_node, annos.NodeAnno.ARGS_AND_BODY_SCOPE)' in src
+    loops = [l for l in ast.walk(vn.node) if isinstance(l, ast.For) and
+             'anno.Static.DEFINED_FNS_IN' in tpl.xnorm(vn, l.iter, l.iter)]
+    ok = len(loops) == 1 and pat.has(
+        loops[0], '_S_ = anno.getanno(%s, annos.NodeAnno.ARGS_AND_BODY_SCOPE)' %
+        core.norm(loops[0].target))
     rep.check(ok, 'LV-CLOSURE', '%s:uses-reaching-fndefs-and-function-scope' % vn.site,
               'the closure rule must iterate over DEFINED_FNS_IN and use each '
               'function\'s args+body scope', line=vn.node.lineno)
@@ -172,10 +162,14 @@ def check(model, rep, tier):
                            'a function definition reaching over a dropped edge '
                            'is forgotten')
   rules_df.check_change_flag(rep, 'LV-CLOSURE', rvn, 'out')
-  src = core.norm(rvn.node)
-  ok = 'defs_out += node.ast_node' in src and \
-      'isinstance(node.ast_node, (ast.Lambda, ast.FunctionDef))' in src and \
-      'defs_in = _NodeState(self.external_defs)' in src
+  rp = rvn.params()[0]
+  ok = False
+  for i in ast.walk(rvn.node):
+    if isinstance(i, ast.If) and core.norm(i.test) in (
+        'isinstance(%s.ast_node, (ast.Lambda, ast.FunctionDef))' % rp,
+        'isinstance(%s.ast_node, (ast.FunctionDef, ast.Lambda))' % rp):
+      ok = any(pat.match('_O_ += %s.ast_node' % rp, x) for x in i.body)
+  ok = ok and pat.has(rvn.node, '_I_ = _NodeState(self.external_defs)')
   rep.check(ok, 'LV-CLOSURE', '%s:gen-function-nodes' % rvn.site,
             'every def / lambda node must add itself to the definitions flowing '
             'out; the entry starts from the enclosing function\'s definitions',
@@ -185,19 +179,21 @@ def check(model, rep, tier):
     m = rns.methods.get(op)
     if m is None:
       raise core.AnalysisError('reaching_fndefs._NodeState.%s missing' % op)
-    s2 = core.norm(m.node)
-    ok = 'result = _NodeState(self.value)' in s2 and (
-        'result.value.update(other.value)' in s2 if want == 'union' else
-        'result.value.add(value)' in s2) and 'return result' in s2
+    mp = m.params()[0]
+    n1, b1 = pat.first(m.node, '_R_ = _NodeState(self.value)')
+    ok = b1 is not None and pat.has(m.node, 'return _R_', b1) and pat.has(
+        m.node, ('_R_.value.update(%s.value)' % mp) if want == 'union' else
+        ('_R_.value.add(%s)' % mp), b1)
     rep.check(ok, 'LV-CLOSURE', '%s:%s' % (m.site, want),
               'the state operator must build a new state containing the old one '
               '(no aliasing of the stored state)', line=m.node.lineno)
   rta = model.cls(RF, 'TreeAnnotator')
   rvisit = rta.methods['visit']
-  src = core.norm(rvisit.node)
-  ok = 'anno.setanno(node, anno.Static.DEFINED_FNS_IN, ' \
-       'self.current_analyzer.in_[cfg_node].value)' in src and \
-       'anno.getanno(node, anno.Basic.EXTRA_LOOP_TEST, default=None)' in src
+  vp = rvisit.params()[0]
+  ok = pat.has(rvisit.node, 'anno.setanno(%s, anno.Static.DEFINED_FNS_IN, '
+               'self.current_analyzer.in_[_C_].value)' % vp) and pat.has(
+                   rvisit.node, '_X_ = anno.getanno(%s, anno.Basic.EXTRA_LOOP_TEST, '
+                   'default=None)' % vp)
   rep.check(ok, 'LV-CLOSURE', '%s:annotates-every-cfg-node-and-hidden-tests' % rvisit.site,
             'DEFINED_FNS_IN must be attached to every CFG node, including the '
             'hidden extra loop test', line=rvisit.node.lineno)
@@ -207,7 +203,7 @@ def check(model, rep, tier):
   rules_df.check_driver(model, rep, 'LV-DRIVER')
   ta = model.cls(LV, 'TreeAnnotator')
   af = ta.methods['_analyze_function']
-  rep.check('analyzer.visit_reverse()' in core.norm(af.node), 'LV-DRIVER',
+  rep.check(pat.has(af.node, '_A_.visit_reverse()'), 'LV-DRIVER',
             '%s:backward' % af.site, 'liveness is a backward analysis',
             line=af.node.lineno, nontrivial=False)
 
@@ -218,14 +214,16 @@ def check(model, rep, tier):
   facts = {}
   if ok:
     lp = loops[0]
-    src = core.norm(blo.node)
+    bp = blo.params()[0]
+    lv = core.norm(lp.target)
     facts = {'body': [core.norm(s) for s in lp.body]}
-    ok = core.norm(lp.iter) == 'successors' and len(lp.body) == 1 and core.norm(
-        lp.body[0]) in (
-            'stmt_live_out.update(self.current_analyzer.in_[%s])' % core.norm(lp.target),
-            'stmt_live_out |= self.current_analyzer.in_[%s]' % core.norm(lp.target)) \
-        and 'successors = self.current_analyzer.graph.stmt_next[node]' in src and \
-        'anno.setanno(node, anno.Static.LIVE_VARS_OUT, frozenset(stmt_live_out))' in src
+    it = tpl.xnorm(blo, lp.iter, lp.iter)
+    ok = it == 'self.current_analyzer.graph.stmt_next[%s]' % bp and len(lp.body) == 1
+    if ok:
+      b = pat.match('_S_.update(self.current_analyzer.in_[%s])' % lv, lp.body[0]) or \
+          pat.match('_S_ |= self.current_analyzer.in_[%s]' % lv, lp.body[0])
+      ok = b is not None and pat.has(
+          blo.node, 'anno.setanno(%s, anno.Static.LIVE_VARS_OUT, frozenset(_S_))' % bp, b)
   rep.check(ok, 'LV-BLOCK', '%s:all-statement-successors' % blo.site,
             'the live-out of a compound statement is the union of the live-in '
             'of *all* its statement successors', facts, line=blo.node.lineno,
@@ -245,8 +243,8 @@ def check(model, rep, tier):
               'live-in of %s must be read at its entry node (%s) and its '
               'live-out recorded' % (h[6:], entry), line=m.node.lineno if m else None)
   vis = ta.methods['visit']
-  ok = 'anno.setanno(node, anno.Static.LIVE_VARS_IN, ' \
-       'frozenset(self.current_analyzer.in_[cfg_node]))' in core.norm(vis.node)
+  ok = pat.has(vis.node, 'anno.setanno(%s, anno.Static.LIVE_VARS_IN, '
+               'frozenset(self.current_analyzer.in_[_C_]))' % vis.params()[0])
   rep.check(ok, 'LV-BLOCK', '%s:statement-live-in' % vis.site,
             'every statement with a CFG node gets its live-in set',
             line=vis.node.lineno)
